@@ -31,6 +31,7 @@ BadAnywhere == <<
   <<1, 0, 0, 2, 3, 3>>,          \* ClientHello cut off by its declared length
   <<4, 0, 0, 3, 0, 0, 0>>,       \* NewSessionTicket shorter than 4
   (* messages that END at a field boundary, a mandatory field missing (the declared length is consistent with what is there) *)
+  <<11, 0, 0, 5, 1, 170, 0, 0, 0>>, <<11, 0, 0, 14, 1, 170, 0, 0, 9, 0, 0, 4, 48, 1, 2, 3, 0, 0>>,   \* Certificate list beyond the body (bytes that read well in the RFC 8446 layout)
   <<67, 0, 0, 3, 2, 104, 50>>,   \* NextProtocol: the selected protocol, no padding field
   <<6, 0, 0, 2, 3, 4>>,          \* HelloRetryRequest: the version, no cipher suite
   <<22, 0, 0, 1, 1>>,            \* CertificateStatus: the type, no response length
